@@ -159,8 +159,10 @@ def pattern_programs(ctx, n, bad, nvec, thorough=False):
     pats = irpatterns.patterns(random.Random(rng.randrange(1 << 30)), thorough=thorough)
     if n < len(pats):
         # loops that test their own phi are always in (a shape with a listed finding), the rest is sampled
-        always = [p for p in pats if ":self_loop:" in p[0]]
-        rest = [p for p in pats if ":self_loop:" not in p[0]]
+        # ... and the loops whose phis depend on each other (parallel phi copies), the rotating tail calls
+        ALWAYS = (":self_loop:", ":cross_loop:", ":swap_loop:", "tail:rotate:", "tail:swap:")
+        always = [p for p in pats if any(a in p[0] for a in ALWAYS)]
+        rest = [p for p in pats if not any(a in p[0] for a in ALWAYS)]
         pats = always + rng.sample(rest, max(0, n - len(always)))
     out = []
     for key, mk, fn, ptys in pats:
